@@ -27,6 +27,12 @@ struct file_builder {
 
 // A data stream whose structure is concrete and whose payload is symbolic: params[base] = number of bytes n, params[base+1..base+n] =
 // the bytes, 256 meaning "leave symbolic" (used for run-length-coded data: packet headers / escapes concrete, colour values symbolic)
+// position of the stream description in the parameter vector: base+14 unless the harness reserves those slots (-DVP_STREAM_AT=k)
+#ifdef VP_STREAM_AT
+#define STREAM_AT(base) (VP_STREAM_AT)
+#else
+#define STREAM_AT(base) ((base) + 14)
+#endif
 static inline void structured_stream(file_builder& f, int base, unsigned long at) {
     int n = vp_param(base);
     for (int i = 0; i < n; ++i) { int b = vp_param(base + 1 + i); if (b != 256) f.u8(at + (unsigned long)i, (unsigned)b); }
@@ -46,7 +52,7 @@ static inline void bmp_file(file_builder& f, int base) {
     // decoder's loops stay within a small unwinding bound; runs still exceed the row width of the small images used
     int datamax = vp_param(base + 8), datastart = vp_param(base + 9);
     if (datamax > 0) for (unsigned long i = (unsigned long)datastart; i < f.L; ++i) vp_assume(f.d[i] <= datamax);
-    if (datamax < 0) structured_stream(f, base + 14, (unsigned long)datastart);   // concrete run-length structure from params[base+14..]
+    if (datamax < 0) structured_stream(f, STREAM_AT(base), (unsigned long)datastart);   // concrete run-length structure from params[base+14..]
 }
 // ---- TARGA.  params[base..]: id length, colour map type, image type, bits per pixel, descriptor, width, height
 static inline void targa_file(file_builder& f, int base) {
@@ -57,7 +63,7 @@ static inline void targa_file(file_builder& f, int base) {
     // m = 0x7C keeps raw/RLE packets of 1..4 pixels, so that the decoder's loops stay within a small unwinding bound
     int mask = vp_param(base + 7), datastart = vp_param(base + 8);
     if (mask > 0) for (unsigned long i = (unsigned long)datastart; i < f.L; ++i) vp_assume((f.d[i] & mask) == 0);
-    if (mask < 0) structured_stream(f, base + 14, (unsigned long)datastart);
+    if (mask < 0) structured_stream(f, STREAM_AT(base), (unsigned long)datastart);
 }
 // ---- PNM.  params[base..]: type 1..6, width, height, max value, variant
 //      variant 0: "P<t>\n<w> <h>\n<max>\n" + data; 1: with a comment line; 2: width with 11 digits; 3 / 4: ascii data with one 17- / 16-digit token (the reader's digit buffer holds 15 digits + NUL)
